@@ -1,0 +1,179 @@
+//go:build verif
+
+package container
+
+// Contracts for the govc verifier (/verif/DESIGN.md). Package clause and comments only.
+//
+// The observable graph of a container is (N, out, in): the node set and, per node, the set of out- and
+// in-neighbours. "Both" is the union of the two, so it contains the node itself exactly when the node
+// has a self loop. Every container is specified against these same three views; that is what makes
+// "all containers present the same graph" a theorem about each of them rather than a comparison.
+
+//@ import graph "github.com/specterops/dawgs/graph"
+//@ import cardinality "github.com/specterops/dawgs/cardinality"
+
+// ---- the DirectedGraph interface contract -------------------------------------------------------------------
+// gnodes / gadj are the abstract views of an arbitrary implementation (uninterpreted for unknown ones).
+
+// ---- adjacency-map digraph ---------------------------------------------------------------------------------------
+
+//@ pure func amOut(s *adjacencyMapDigraph, u uint64) set[uint64] { u in s.outbound ? viewof(s.outbound[u]) : {} }
+//@ pure func amIn(s *adjacencyMapDigraph, u uint64) set[uint64] { u in s.inbound ? viewof(s.inbound[u]) : {} }
+//@ pure func amAdj(s *adjacencyMapDigraph, u uint64, d graph.Direction) set[uint64] {
+//@   d == graph.DirectionOutbound ? amOut(s, u) : (d == graph.DirectionInbound ? amIn(s, u) : (d == graph.DirectionBoth ? amOut(s, u) union amIn(s, u) : {}))
+//@ }
+//@ pure func amNodes(s *adjacencyMapDigraph) set[uint64] { viewof(s.nodes) }
+
+// Representation invariant: all bitmaps exist, every bitmap has its own cell (no two keys, maps or the node
+// set share state), in/out are mirror images, endpoints are nodes.
+//@ pure func amWF(s *adjacencyMapDigraph) bool {
+//@   s.nodes != nil && s.inbound != nil && s.outbound != nil && s.inbound != s.outbound && allocated(cellof(s.nodes))
+//@   && (forall u uint64 :: u in s.outbound ==> s.outbound[u] != nil && allocated(cellof(s.outbound[u])) && cellof(s.outbound[u]) != cellof(s.nodes))
+//@   && (forall u uint64 :: u in s.inbound ==> s.inbound[u] != nil && allocated(cellof(s.inbound[u])) && cellof(s.inbound[u]) != cellof(s.nodes))
+//@   && (forall u uint64; v uint64 :: u in s.outbound && v in s.outbound && u != v ==> cellof(s.outbound[u]) != cellof(s.outbound[v]))
+//@   && (forall u uint64; v uint64 :: u in s.inbound && v in s.inbound && u != v ==> cellof(s.inbound[u]) != cellof(s.inbound[v]))
+//@   && (forall u uint64; v uint64 :: u in s.outbound && v in s.inbound ==> cellof(s.outbound[u]) != cellof(s.inbound[v]))
+//@   && (forall u uint64; v uint64 :: (v in amOut(s, u)) == (u in amIn(s, v)))
+//@   && (forall u uint64; v uint64 :: v in amOut(s, u) ==> u in amNodes(s) && v in amNodes(s))
+//@ }
+
+//@ func NewAdjacencyMapGraph() MutableDirectedGraph
+//@   nomod
+//@   ensures typeof(result) == *adjacencyMapDigraph && result.(*adjacencyMapDigraph) != nil && fresh(result.(*adjacencyMapDigraph))
+//@   ensures amWF(result.(*adjacencyMapDigraph))
+//@   ensures amNodes(result.(*adjacencyMapDigraph)) == {}
+//@   ensures forall u uint64 :: amOut(result.(*adjacencyMapDigraph), u) == {} && amIn(result.(*adjacencyMapDigraph), u) == {}
+
+//@ func (s *adjacencyMapDigraph) AddNode(node uint64)
+//@   requires s != nil && amWF(s)
+//@   modifies setview(cellof(s.nodes))
+//@   ensures amWF(s)
+//@   ensures amNodes(s) == old(amNodes(s)) union {node}
+//@   ensures forall u uint64 :: amOut(s, u) == old(amOut(s, u)) && amIn(s, u) == old(amIn(s, u))
+
+//@ func (s *adjacencyMapDigraph) AddEdge(start uint64, end uint64)
+//@   requires s != nil && amWF(s)
+//@   modifies contents(s.outbound), contents(s.inbound), all(ghost:set.V)
+//@   ensures wf: amWF(s)
+//@   ensures nodes: amNodes(s) == old(amNodes(s)) union {start, end}
+//@   ensures outStart: forall v uint64 :: (v in amOut(s, start)) == (old(v in amOut(s, start)) || v == end)
+//@   ensures outOther: forall u uint64; v uint64 :: u != start ==> (v in amOut(s, u)) == old(v in amOut(s, u))
+//@   ensures inEnd: forall v uint64 :: (v in amIn(s, end)) == (old(v in amIn(s, end)) || v == start)
+//@   ensures inOther: forall u uint64; v uint64 :: u != end ==> (v in amIn(s, u)) == old(v in amIn(s, u))
+
+//@ func (s *adjacencyMapDigraph) NumNodes() uint64
+//@   requires s != nil && amWF(s)
+//@   nomod
+//@   ensures result == card(amNodes(s))
+
+//@ func (s *adjacencyMapDigraph) getAdjacent(node uint64, direction graph.Direction) cardinality.Duplex[uint64]
+//@   requires s != nil && amWF(s)
+//@   modifies all(ghost:set.V)
+//@   ensures present: result != nil ==> viewof(result) == old(amAdj(s, node, direction)) && allocated(cellof(result))
+//@   ensures absent: result == nil ==> old(amAdj(s, node, direction)) == {}
+//@   ensures same: amWF(s) && amNodes(s) == old(amNodes(s)) && (forall u uint64 :: amOut(s, u) == old(amOut(s, u)) && amIn(s, u) == old(amIn(s, u)))
+
+//@ func (s *adjacencyMapDigraph) Degrees(node uint64, direction graph.Direction) uint64
+//@   requires s != nil && amWF(s)
+//@   modifies all(ghost:set.V)
+//@   ensures result == card(old(amAdj(s, node, direction)))
+
+//@ func (s *adjacencyMapDigraph) EachNode(delegate func(node uint64) bool)
+//@   requires s != nil && amWF(s)
+//@   iterates amNodes(s) with delegate
+
+//@ func (s *adjacencyMapDigraph) EachAdjacentNode(node uint64, direction graph.Direction, delegate func(adjacent uint64) bool)
+//@   requires s != nil && amWF(s)
+//@   iterates amAdj(s, node, direction) with delegate
+
+// ---- triple store ------------------------------------------------------------------------------------------------
+// Edge i of the store is live when its ID is not in deletedEdges. out/in neighbourhoods are defined from the edge
+// list; the start/end indexes are redundant state tied to the edge list by the representation invariant.
+
+//@ pure func tsLive(s *triplestore, i int) bool { 0 <= i && i < len(s.edges) && !(s.edges[i].ID in viewof(s.deletedEdges)) }
+//@ pure func tsNodes(s *triplestore) set[uint64] { viewof(s.nodes) }
+//@ pure func tsAdj(s *triplestore, u uint64, d graph.Direction) set[uint64] {
+//@   setof v uint64 :: exists i int :: tsLive(s, i) && ((d != graph.DirectionInbound && s.edges[i].Start == u && s.edges[i].End == v) || (d != graph.DirectionOutbound && s.edges[i].End == u && s.edges[i].Start == v))
+//@ }
+//@ pure func tsIncident(s *triplestore, u uint64, d graph.Direction) set[uint64] {
+//@   setof i uint64 :: 0 <= i && i < len(s.edges) && ((d != graph.DirectionInbound && s.edges[i].Start == u) || (d != graph.DirectionOutbound && s.edges[i].End == u))
+//@ }
+//@ pure func tsShape(s *triplestore) bool {
+//@   s.nodes != nil && s.deletedEdges != nil && s.startIndex != nil && s.endIndex != nil && s.startIndex != s.endIndex
+//@   && allocated(cellof(s.nodes)) && allocated(cellof(s.deletedEdges)) && cellof(s.nodes) != cellof(s.deletedEdges)
+//@   && (s.edges.arr == nil || allocated(s.edges.arr))
+//@   && (forall u uint64 :: u in s.startIndex ==> s.startIndex[u] != nil && allocated(cellof(s.startIndex[u])))
+//@   && (forall u uint64 :: u in s.endIndex ==> s.endIndex[u] != nil && allocated(cellof(s.endIndex[u])))
+//@ }
+//@ pure func tsCells(s *triplestore) bool {
+//@   (forall u uint64 :: u in s.startIndex ==> cellof(s.startIndex[u]) != cellof(s.nodes) && cellof(s.startIndex[u]) != cellof(s.deletedEdges))
+//@   && (forall u uint64 :: u in s.endIndex ==> cellof(s.endIndex[u]) != cellof(s.nodes) && cellof(s.endIndex[u]) != cellof(s.deletedEdges))
+//@   && (forall u uint64; v uint64 :: u in s.startIndex && v in s.startIndex && u != v ==> cellof(s.startIndex[u]) != cellof(s.startIndex[v]))
+//@   && (forall u uint64; v uint64 :: u in s.endIndex && v in s.endIndex && u != v ==> cellof(s.endIndex[u]) != cellof(s.endIndex[v]))
+//@   && (forall u uint64; v uint64 :: u in s.startIndex && v in s.endIndex ==> cellof(s.startIndex[u]) != cellof(s.endIndex[v]))
+//@ }
+//@ pure func tsIndex(s *triplestore) bool {
+//@   (forall u uint64; i uint64 :: (u in s.startIndex && i in viewof(s.startIndex[u])) == (0 <= i && i < len(s.edges) && s.edges[i].Start == u))
+//@   && (forall u uint64; i uint64 :: (u in s.endIndex && i in viewof(s.endIndex[u])) == (0 <= i && i < len(s.edges) && s.edges[i].End == u))
+//@ }
+//@ pure func tsWF(s *triplestore) bool { tsShape(s) && tsCells(s) && tsIndex(s) }
+
+//@ func NewTriplestore() MutableTriplestore
+//@   nomod
+//@   ensures typeof(result) == *triplestore && result.(*triplestore) != nil && fresh(result.(*triplestore))
+//@   ensures tsWF(result.(*triplestore)) && len(result.(*triplestore).edges) == 0 && tsNodes(result.(*triplestore)) == {}
+
+//@ func (s *triplestore) AddNode(node uint64)
+//@   requires s != nil && tsWF(s)
+//@   modifies setview(cellof(s.nodes))
+//@   ensures tsWF(s) && tsNodes(s) == old(tsNodes(s)) union {node}
+
+//@ func (s *triplestore) NumNodes() uint64
+//@   requires s != nil && tsWF(s)
+//@   nomod
+//@   ensures result == card(tsNodes(s))
+
+//@ func (s *triplestore) NumEdges() uint64
+//@   requires s != nil
+//@   nomod
+//@   ensures result == len(s.edges)
+
+//@ func (s *triplestore) DeleteEdge(id uint64)
+//@   requires s != nil && tsWF(s)
+//@   modifies setview(cellof(s.deletedEdges))
+//@   ensures tsWF(s) && viewof(s.deletedEdges) == old(viewof(s.deletedEdges)) union {id}
+
+//@ func (s *triplestore) AddTriple(edge uint64, start uint64, end uint64)
+//@   requires s != nil && tsWF(s)
+//@   modifies s.edges, contents(s.startIndex), contents(s.endIndex), all(ghost:set.V), all(elems:github.com/specterops/dawgs/container.Edge.ID), all(elems:github.com/specterops/dawgs/container.Edge.Start), all(elems:github.com/specterops/dawgs/container.Edge.End)
+//@   ensures wf: tsWF(s)
+//@   ensures appended: len(s.edges) == old(len(s.edges)) + 1 && s.edges[old(len(s.edges))].ID == edge && s.edges[old(len(s.edges))].Start == start && s.edges[old(len(s.edges))].End == end
+//@   ensures kept: forall i int :: 0 <= i && i < old(len(s.edges)) ==> s.edges[i].ID == old(s.edges[i].ID) && s.edges[i].Start == old(s.edges[i].Start) && s.edges[i].End == old(s.edges[i].End)
+//@   ensures nodes: tsNodes(s) == old(tsNodes(s)) union {start, end}
+//@   ensures deleted: viewof(s.deletedEdges) == old(viewof(s.deletedEdges))
+
+//@ func (s *triplestore) adjacentEdgeIndices(node uint64, direction graph.Direction) cardinality.Duplex[uint64]
+//@   requires s != nil && tsShape(s) && tsIndex(s)
+//@   modifies all(ghost:set.V)
+//@   ensures result != nil && fresh(cellof(result))
+//@   ensures out: direction == graph.DirectionOutbound ==> (forall i uint64 :: (i in viewof(result)) == (0 <= i && i < len(s.edges) && s.edges[i].Start == node))
+//@   ensures in: direction == graph.DirectionInbound ==> (forall i uint64 :: (i in viewof(result)) == (0 <= i && i < len(s.edges) && s.edges[i].End == node))
+//@   ensures both: direction != graph.DirectionOutbound && direction != graph.DirectionInbound ==> (forall i uint64 :: (i in viewof(result)) == (0 <= i && i < len(s.edges) && (s.edges[i].Start == node || s.edges[i].End == node)))
+//@   ensures same: forall c int :: old(allocated(c)) ==> setview(c) == old(setview(c))
+
+//@ func (s *triplestore) adjacent(node uint64, direction graph.Direction) cardinality.Duplex[uint64]
+//@   requires s != nil && tsShape(s) && tsIndex(s)
+//@   modifies all(ghost:set.V)
+//@   ensures result != nil && fresh(cellof(result)) && viewof(result) == old(tsAdj(s, node, direction))
+//@   ensures same: forall c int :: old(allocated(c)) ==> setview(c) == old(setview(c))
+//@   iter 0
+//@     invariant nodes != nil && fresh(cellof(nodes)) && (forall c int :: old(allocated(c)) ==> setview(c) == old(setview(c)))
+//@     invariant built: forall v uint64 :: (v in viewof(nodes)) == (exists i int :: i in visited && tsLive(s, i) && ((direction != graph.DirectionInbound && s.edges[i].Start == node && s.edges[i].End == v) || (direction != graph.DirectionOutbound && s.edges[i].End == node && s.edges[i].Start == v)))
+
+//@ func (s *triplestore) EachNode(delegate func(node uint64) bool)
+//@   requires s != nil && tsWF(s)
+//@   iterates tsNodes(s) with delegate
+
+//@ func (s *triplestore) EachAdjacentNode(node uint64, direction graph.Direction, delegate func(adjacent uint64) bool)
+//@   requires s != nil && tsWF(s)
+//@   iterates tsAdj(s, node, direction) with delegate
